@@ -39,6 +39,7 @@ fn main() {
         "C31" => c31::run(seed, n, replay, &mut out),
         "C02" => c02::run(seed, n, replay, &mut out),
         "C29" | "C30" => c29::run(seed, n, replay, &mut out, a[1].as_str()),
+        "C22" | "hcfg" | "hcfg-optimism" => c22::run(seed, n, replay, &mut out),
         other => {
             eprintln!("unknown component {other}");
             std::process::exit(2);
